@@ -182,6 +182,16 @@ def classify(diags, mp, unit_name=""):
                 rid = rid + "@" + r2["item"]
                 break
         props = set(r["props"]) if r else set()
+        if "decreases not satisfied" in msg and r is not None:
+            # Verus reports a failed termination measure at the `continue`/loop end inside the body: it belongs to the
+            # clause that states the measure (tagged `...terminates`), not to the body's own properties
+            tp = set()
+            for r3 in mp["regions"]:
+                if r3.get("item") == r.get("item") and r3["kind"] == "loop-clause" and "terminat" in r3.get("clause", ""):
+                    tp |= set(r3["props"])
+            if tp:
+                props = tp
+                rid = "%s#%s" % (r.get("item"), "termination-measure")
         impl_props = None
         for s2 in spans:
             r2 = region_of(mp, s2["line_start"])
